@@ -339,7 +339,7 @@ Fixpoint enum (t : tree) (pre : pstr) : list (pstr * scalar) :=
 Definition xpath_enum (t : tree) : list (pstr * scalar) := enum t s_root.
 
 (* ---- observations ------------------------------------------------------------------------ *)
-Definition wfuel (x : pstr) : nat := 8 * length x + 64.
+Definition wfuel (x : pstr) : nat := 8 * length x + 64 + 2 * length (tokenize x).
 
 Definition obs_set (root : tree) (x : pstr) (v : tree) : out := setitem (wfuel x) root x v.
 
